@@ -216,7 +216,8 @@ class EmptyImport(ImportInfo):
         return []
 
     def get_import_statement(self) -> str:
-        raise NotImplementedError()
+        # Two emptied imports are compared through their statements.
+        return ""
 
 
 class ImportContext:
